@@ -87,6 +87,26 @@ func c17Compatible(vk, tn string) bool {
 	return false
 }
 
+// c17Preset is stale content the field holds before start-up (a component built with preset
+// values): binding must give exactly the configured value, not a merge with what was there.
+func c17Preset(tn string) any {
+	switch tn {
+	case "strs":
+		return []string{"stale0", "stale1", "stale2", "stale3"}
+	case "ints":
+		return []int{90, 91, 92, 93}
+	case "mapany":
+		return map[string]any{"stale": "x", "a": "old"}
+	case "mapstr":
+		return map[string]string{"stale": "x", "a": "old"}
+	case "struct":
+		return c17S{A: "old", N: 99}
+	case "pstruct":
+		return &c17S{A: "old", N: 99}
+	}
+	return nil
+}
+
 // c17Default is a default text of the field's kind that differs from every configured value.
 func c17Default(tn string) string {
 	switch tn {
@@ -177,8 +197,11 @@ func c17Run(c *core.Ctx) {
 				if !c17Compatible(k, tn) {
 					continue
 				}
-				for _, p := range []string{"prefix", "value", "prop", "value-default", "prop-default"} {
+				for _, p := range []string{"prefix", "value", "prop", "value-default", "prop-default", "prefix-preset", "value-preset"} {
 					if strings.HasSuffix(p, "-default") && c17Default(tn) == "" {
+						continue
+					}
+					if strings.HasSuffix(p, "-preset") && c17Preset(tn) == nil {
 						continue
 					}
 					if !yield(c17Case{k, tn, p}) {
@@ -199,9 +222,12 @@ func c17Run(c *core.Ctx) {
 			}
 		}
 	}
-	bind := func(t reflect.Type, tag string) (any, *scen.StartObs) {
+	bind := func(t reflect.Type, tag string, preset any) (any, *scen.StartObs) {
 		st := reflect.StructOf([]reflect.StructField{{Name: "X", Type: t, Tag: reflect.StructTag(tag)}})
 		h := reflect.New(st)
+		if preset != nil {
+			h.Elem().Field(0).Set(reflect.ValueOf(preset))
+		}
 		o := scen.Start(scen.StartSpec{Ch: envx.Fixed("", nil), Comps: []any{h.Interface()}, Opts: []app.SettingOption{app.SetConfigLoader(loader.NewRawLoader(doc))}})
 		return h.Elem().Field(0).Interface(), o
 	}
@@ -230,6 +256,10 @@ func c17Run(c *core.Ctx) {
 			tag = fmt.Sprintf(`value:"${%s}"`, cs.Val)
 		case "prop":
 			tag = fmt.Sprintf(`prop:"%s"`, cs.Val)
+		case "prefix-preset":
+			tag = fmt.Sprintf(`prefix:"%s"`, cs.Val)
+		case "value-preset":
+			tag = fmt.Sprintf(`value:"${%s}"`, cs.Val)
 		case "value-default": // the key is configured, so the default must be ignored
 			tag = fmt.Sprintf(`value:"${%s:%s}"`, cs.Val, c17Default(cs.Type))
 		case "prop-default":
@@ -237,7 +267,11 @@ func c17Run(c *core.Ctx) {
 		case "literal":
 			tag = "value:" + strconv.Quote(raw.(string))
 		}
-		got, o := bind(t, tag)
+		var preset any
+		if strings.HasSuffix(cs.Path, "-preset") {
+			preset = c17Preset(cs.Type)
+		}
+		got, o := bind(t, tag, preset)
 		observed := c17Show(got)
 		switch {
 		case o.Panic != "" || o.Abort != "":
